@@ -429,7 +429,9 @@ fn execute(sc: &Scenario, osim: SimOs, rep: &mut RunReport) {
         // the rules for calls with a fault in flight
         let transient_stdin = want_op == "stdin_read_line" && matches!(&pred, Err((k, _)) if *k == std::io::ErrorKind::Interrupted as i64);
         let as_documented = match &pred {
-            Ok(repr) => success_ok(&value, repr),
+            // (a reported success counts as the documented one only if the file tree is the
+            // documented one too)
+            Ok(repr) => success_ok(&value, repr) && (want_op == "stdin_read_line" || os::with(|o| o.nodes == predicted.nodes).unwrap_or(false)),
             Err((kind, msg)) => error_struct_matches(&value, *kind, msg),
         };
         if injected.is_empty() && !transient_stdin {
